@@ -64,7 +64,33 @@ type Case struct {
 	ServerStream bool     `json:"server_stream"` // the method is server-streaming and sends Replies messages (false: unary)
 	Replies      int      `json:"replies"`
 	Writer       bool     `json:"writer"` // (http, server-streaming with >= 1 reply) the method replies with a google.api.HttpBody stream and the handler writes it through larking.AsHTTPBodyWriter instead of SendMsg
-	Split        bool     `json:"split"` // the handler sets its metadata one value per SetHeader/SetTrailer call (calls accumulate)
+	Split        bool     `json:"split"`  // the handler sets its metadata one value per SetHeader/SetTrailer call (calls accumulate)
+	// Reuse: what the handler does with the metadata.MD objects it hands over (grpc-go copies what it is given, so
+	// both are legal). 0: nothing. 1: it goes on using them - overwrites the values in place and adds keys after
+	// every SetHeader/SetTrailer/SendHeader call. 2: as 1, and its first SetTrailer call passes a long-lived MD
+	// (static trailers shared by all calls); the request is served twice and the second response is the one judged.
+	Reuse int `json:"reuse"`
+}
+
+const staticKey = "x-c14-static"
+
+// effTrailer is the trailer metadata the client must see.
+func (c Case) effTrailer() []KV {
+	if c.Reuse == 2 {
+		return append([]KV{{Key: staticKey, Vals: [][]byte{[]byte("s")}}}, c.Trailer...)
+	}
+	return c.Trailer
+}
+
+// scribble is what a handler that keeps using its own map does to it after the call.
+func scribble(md metadata.MD) {
+	for k, vs := range md {
+		if len(vs) > 0 {
+			vs[0] = "scribbled-after-the-call"
+		}
+		md[k] = append([]string{"replaced-after-the-call"}, vs...)
+	}
+	md["x-c14-late"] = []string{"late"}
 }
 
 var (
@@ -110,7 +136,13 @@ func toMD(kvs []KV) metadata.MD {
 
 // inCalls delivers the metadata either in one call or, when split, one value
 // per call (gRPC merges the metadata of successive calls, values in order).
-func inCalls(split bool, kvs []KV, set func(metadata.MD)) {
+func inCalls(split bool, kvs []KV, set0 func(metadata.MD), reuse int) {
+	set := func(md metadata.MD) {
+		set0(md)
+		if reuse > 0 {
+			scribble(md)
+		}
+	}
 	if !split {
 		set(toMD(kvs))
 		return
@@ -141,21 +173,28 @@ func newMux(c Case, s *seen) *larking.Mux {
 	if err != nil {
 		panic(err)
 	}
+	// long-lived trailer metadata of the service (Reuse == 2): passed to SetTrailer by every call, never written by the handler
+	static := metadata.Pairs(staticKey, "s")
 	unary := func(ctx context.Context, fm string, req *dynamicpb.Message) (proto.Message, error) {
 		s.ran = true
 		s.md, _ = metadata.FromIncomingContext(ctx)
-		setTrailer := func() { inCalls(c.Split, c.Trailer, func(md metadata.MD) { grpc.SetTrailer(ctx, md) }) }
+		setTrailer := func() {
+			if c.Reuse == 2 {
+				grpc.SetTrailer(ctx, static)
+			}
+			inCalls(c.Split, c.Trailer, func(md metadata.MD) { grpc.SetTrailer(ctx, md) }, c.Reuse)
+		}
 		if !c.TrailerLate {
 			setTrailer()
 		}
 		switch {
 		case c.SendHeader && !c.Split:
-			grpc.SendHeader(ctx, toMD(c.Header))
+			inCalls(false, c.Header, func(md metadata.MD) { grpc.SendHeader(ctx, md) }, c.Reuse)
 		case c.SendHeader:
-			inCalls(true, c.Header, func(md metadata.MD) { grpc.SetHeader(ctx, md) })
+			inCalls(true, c.Header, func(md metadata.MD) { grpc.SetHeader(ctx, md) }, c.Reuse)
 			grpc.SendHeader(ctx, metadata.MD{})
 		default:
-			inCalls(c.Split, c.Header, func(md metadata.MD) { grpc.SetHeader(ctx, md) })
+			inCalls(c.Split, c.Header, func(md metadata.MD) { grpc.SetHeader(ctx, md) }, c.Reuse)
 		}
 		if c.TrailerLate {
 			setTrailer()
@@ -171,18 +210,23 @@ func newMux(c Case, s *seen) *larking.Mux {
 		}
 		s.ran = true
 		s.md, _ = metadata.FromIncomingContext(ss.Context())
-		setTrailer := func() { inCalls(c.Split, c.Trailer, func(md metadata.MD) { ss.SetTrailer(md) }) }
+		setTrailer := func() {
+			if c.Reuse == 2 {
+				ss.SetTrailer(static)
+			}
+			inCalls(c.Split, c.Trailer, func(md metadata.MD) { ss.SetTrailer(md) }, c.Reuse)
+		}
 		if !c.TrailerLate {
 			setTrailer()
 		}
 		switch {
 		case c.SendHeader && !c.Split:
-			ss.SendHeader(toMD(c.Header))
+			inCalls(false, c.Header, func(md metadata.MD) { ss.SendHeader(md) }, c.Reuse)
 		case c.SendHeader:
-			inCalls(true, c.Header, func(md metadata.MD) { ss.SetHeader(md) })
+			inCalls(true, c.Header, func(md metadata.MD) { ss.SetHeader(md) }, c.Reuse)
 			ss.SendHeader(metadata.MD{})
 		default:
-			inCalls(c.Split, c.Header, func(md metadata.MD) { ss.SetHeader(md) })
+			inCalls(c.Split, c.Header, func(md metadata.MD) { ss.SetHeader(md) }, c.Reuse)
 		}
 		if c.Writer {
 			// the raw download path: the first message (content type) and then plain bytes
@@ -278,23 +322,33 @@ func Check(c Case) []evid.Violation {
 		}
 	}
 	var res drive.Result
-	frame := drive.GRPCFrame(nil, false)
-	method, route := "/un.C14/Do", "/c14/do"
-	if c.nreplies() >= 0 {
-		method, route = "/un.C14/DoS", "/c14/dos"
+	rounds := 1
+	if c.Reuse == 2 {
+		rounds = 2 // the first response only warms the service up
 	}
-	if c.Writer {
-		method, route = "/un.C14/Down", "/c14/down"
-	}
-	switch c.Transport {
-	case "grpc":
-		res = drive.Serve(mux, drive.GRPCRequest(method, hdr, bytes.NewReader(frame), "application/grpc"))
-	case "grpcweb":
-		hdr.Set("Content-Type", "application/grpc-web+proto")
-		res = drive.Serve(mux, drive.Request("POST", method, "", hdr, bytes.NewReader(frame), -1))
-	case "http":
-		hdr.Set("Content-Type", "application/json")
-		res = drive.Serve(mux, drive.Request("POST", route, "", hdr, bytes.NewReader([]byte("{}")), 2))
+	for round := 0; round < rounds; round++ {
+		*s = seen{}
+		frame := drive.GRPCFrame(nil, false)
+		method, route := "/un.C14/Do", "/c14/do"
+		if c.nreplies() >= 0 {
+			method, route = "/un.C14/DoS", "/c14/dos"
+		}
+		if c.Writer {
+			method, route = "/un.C14/Down", "/c14/down"
+		}
+		switch c.Transport {
+		case "grpc":
+			res = drive.Serve(mux, drive.GRPCRequest(method, hdr, bytes.NewReader(frame), "application/grpc"))
+		case "grpcweb":
+			hdr.Set("Content-Type", "application/grpc-web+proto")
+			res = drive.Serve(mux, drive.Request("POST", method, "", hdr, bytes.NewReader(frame), -1))
+		case "http":
+			hdr.Set("Content-Type", "application/json")
+			res = drive.Serve(mux, drive.Request("POST", route, "", hdr, bytes.NewReader([]byte("{}")), 2))
+		}
+		if res.Panic != nil {
+			break
+		}
 	}
 	if res.Panic != nil {
 		return fail("panic", res.PanicSig(), "panic: %v", res.Panic)
@@ -383,17 +437,18 @@ func Check(c Case) []evid.Violation {
 		}
 		return nil
 	}
-	wantHeader, wantTrailer := c.Header, c.Trailer
+	trailer := c.effTrailer()
+	wantHeader, wantTrailer := c.Header, trailer
 	if c.Transport == "grpcweb" && webTrailersOnly {
 		// one block for both: a key used as header and as trailer carries the header's values
 		// followed by the trailer's (nothing the handler set may be lost)
-		merged := append(append([]KV{}, c.Header...), c.Trailer...)
+		merged := append(append([]KV{}, c.Header...), trailer...)
 		shared := map[string]bool{}
 		hk := map[string]bool{}
 		for _, kv := range c.Header {
 			hk[kv.Key] = true
 		}
-		for _, kv := range c.Trailer {
+		for _, kv := range trailer {
 			shared[kv.Key] = hk[kv.Key]
 		}
 		pick := func(kvs []KV) []KV {
@@ -410,7 +465,7 @@ func Check(c Case) []evid.Violation {
 			}
 			return out
 		}
-		wantHeader, wantTrailer = pick(c.Header), pick(c.Trailer)
+		wantHeader, wantTrailer = pick(c.Header), pick(trailer)
 	}
 	if vs := checkOut("header", wantHeader, obs.header); vs != nil {
 		return vs
@@ -592,12 +647,20 @@ func genKVs(t *rapid.T, label string) []KV {
 			}
 		case 2, 3, 4: // binary
 			kv.Key = "x-" + rapid.StringMatching(`[a-z0-9_.]{1,6}`).Draw(t, label+"bk") + "-bin"
+			if rapid.IntRange(0, 4).Draw(t, label+"nearb") == 0 {
+				kv.Key = rapid.SampledFrom([]string{"grpc-trace-bin", "grpc-tags-bin", "grpc-custom-bin"}).Draw(t, label+"nbk")
+			}
 			nv := rapid.IntRange(1, 2).Draw(t, label+"bn")
 			for j := 0; j < nv; j++ {
 				kv.Vals = append(kv.Vals, rapid.SliceOfN(rapid.Byte(), 0, 9).Draw(t, label+"bv"))
 			}
 		default:
 			kv.Key = "x-" + rapid.StringMatching(`[a-z0-9_.-]{1,8}`).Draw(t, label+"k")
+			if rapid.IntRange(0, 4).Draw(t, label+"near") == 0 {
+				// names that look like protocol headers without being reserved (the reserved set is a list of
+				// names, not a prefix): they are ordinary metadata
+				kv.Key = rapid.SampledFrom([]string{"grpc-custom", "grpc-trace", "grpc-statusx", "grpc-status-details", "grpc-messages", "content-typex", "x-grpc-status", "tex", "grpc-previous"}).Draw(t, label+"nk")
+			}
 			if strings.HasSuffix(kv.Key, "-bin") {
 				kv.Key += "x"
 			}
@@ -623,6 +686,9 @@ func genCase(t *rapid.T, transports []string) Case {
 		var h ReqHdr
 		bin := rapid.Bool().Draw(t, "bin")
 		h.Name = rapid.StringMatching(`[Xx]-[A-Za-z][A-Za-z0-9]{0,6}`).Draw(t, "name")
+		if rapid.IntRange(0, 4).Draw(t, "nearName") == 0 {
+			h.Name = rapid.SampledFrom([]string{"Grpc-Custom", "grpc-trace", "Grpc-Tags", "grpc-statusx", "Content-Typex", "Tex", "Grpc-Previous"}).Draw(t, "nn")
+		}
 		if c.Transport == "grpc-real" {
 			h.Name = strings.ToLower(h.Name)
 		}
@@ -689,6 +755,10 @@ func genCase(t *rapid.T, transports []string) Case {
 	c.SendHeader = rapid.Bool().Draw(t, "sendHeader")
 	c.Split = rapid.IntRange(0, 2).Draw(t, "split") == 0
 	c.TrailerLate = rapid.Bool().Draw(t, "trailerLate")
+	c.Reuse = rapid.SampledFrom([]int{0, 0, 1, 2}).Draw(t, "reuse")
+	if c.Reuse == 2 && c.Transport == "grpc-real" {
+		c.Reuse = 1
+	}
 	return c
 }
 
@@ -732,9 +802,13 @@ func record(c Case) {
 	if c.Writer {
 		cl = append(cl, "httpbody-stream-through-AsHTTPBodyWriter")
 	}
+	if c.Reuse > 0 {
+		nontriv = true
+		cl = append(cl, fmt.Sprintf("handler-keeps-using-its-metadata-%d", c.Reuse))
+	}
 	key := ""
 	if nontriv {
-		key = fmt.Sprintf("%s|%v|%v|%v|%v|%v|%v|%v|%d", c.Transport, c.Req, c.Header, c.Trailer, c.SendHeader, c.TrailerLate, c.Fail, c.Split, c.nreplies()) + fmt.Sprint(c.Writer)
+		key = fmt.Sprintf("%s|%v|%v|%v|%v|%v|%v|%v|%d", c.Transport, c.Req, c.Header, c.Trailer, c.SendHeader, c.TrailerLate, c.Fail, c.Split, c.nreplies()) + fmt.Sprint(c.Writer, c.Reuse)
 	}
 	evid.Eval(key, cl...)
 }
